@@ -45,6 +45,21 @@ class ClassModel:
             seen_here: set[str] = set()
             for n in m.tree.body:
                 if isinstance(n, ast.FunctionDef):
+                    reg = next((d for d in n.decorator_list if ast.unparse(d).split("(")[0].endswith(".register")), None)
+                    if reg is not None:
+                        # @f.register / @f.register(Type): one arm of a functools.singledispatch function
+                        target = ast.unparse(reg).split("(")[0].rsplit(".", 1)[0]
+                        if isinstance(reg, ast.Call) and reg.args:
+                            types = [ast.unparse(a) for a in reg.args]
+                        elif n.args.args and n.args.args[0].annotation is not None:
+                            types = [t.strip() for t in ast.unparse(n.args.args[0].annotation).split("|")]
+                        else:
+                            types = []
+                        if not hasattr(self, "dispatch"):
+                            self.dispatch: dict[str, list[tuple[list[str], ast.FunctionDef]]] = {}
+                        self.dispatch.setdefault(target, []).append(([t.split(".")[-1] for t in types], n))
+                        self.func_rel[id(n)] = r
+                        continue
                     if i >= explicit and n.name in self.functions and n.name not in seen_here:
                         continue  # an imported module does not redefine a function of the named files
                     seen_here.add(n.name)
@@ -63,6 +78,9 @@ class ClassModel:
                 self.env[cname] = self._ctor(cname)
         for fname, fn in self.functions.items():
             self.env[fname] = self._function(fn)
+        for fname, arms in getattr(self, "dispatch", {}).items():
+            if fname in self.functions and any(ast.unparse(d).split(".")[-1] == "singledispatch" for d in self.functions[fname].decorator_list):
+                self.env[fname] = self._dispatcher(self.functions[fname], arms)
         # `import operator` / `from operator import lt`: pure functions of the standard library, on plain values
         from .ordabs import PureModule
 
@@ -72,6 +90,12 @@ class ClassModel:
                     for a in n.names:
                         if a.name in PureModule.SAFE:
                             self.env.setdefault(a.asname or a.name, PureModule(a.name))
+                elif isinstance(n, ast.ImportFrom) and n.module == "string" and not n.level:
+                    import string as _string
+
+                    for a in n.names:
+                        if isinstance(getattr(_string, a.name, None), str):
+                            self.env.setdefault(a.asname or a.name, getattr(_string, a.name))  # hexdigits, ascii_letters, ...
                 elif isinstance(n, ast.ImportFrom) and n.module in PureModule.SAFE and not n.level:
                     for a in n.names:
                         if a.name in PureModule.SAFE[n.module]:
@@ -138,6 +162,34 @@ class ClassModel:
                         continue
                     self.mod_env[r][tgt.id] = v
                     self.env.setdefault(tgt.id, v)
+
+    def _dispatcher(self, main: ast.FunctionDef, arms: list) -> Callable:
+        """functools.singledispatch on the model: the arm registered for the nearest class of the first argument."""
+        default = self._function(main)
+        compiled = [(types, self._function(fn)) for types, fn in arms]
+        prim = {"str": str, "int": int, "list": list, "tuple": tuple, "dict": dict, "bool": bool, "set": set, "frozenset": frozenset, "float": float}
+
+        def call(*args: Any, **kwargs: Any) -> Any:
+            if not args:
+                return default(*args, **kwargs)
+            v = args[0]
+            if isinstance(v, Obj):
+                best = None
+                for types, f in compiled:
+                    for t in types:
+                        if t in v.kinds and (best is None or v.kinds.index(t) < best[0]):
+                            best = (v.kinds.index(t), f)
+                if best is not None:
+                    return best[1](*args, **kwargs)
+                if any("object" in types for types, _ in compiled):
+                    return next(f for types, f in compiled if "object" in types)(*args, **kwargs)
+                return default(*args, **kwargs)
+            for types, f in compiled:
+                if any(t in prim and type(v) is prim[t] for t in types):
+                    return f(*args, **kwargs)
+            return default(*args, **kwargs)
+
+        return call
 
     def _function(self, fn: ast.FunctionDef) -> Callable:
         def call(*args: Any, **kwargs: Any) -> Any:
@@ -232,6 +284,15 @@ class ClassModel:
             is_prop = any(ast.unparse(d) == "property" for d in fn.decorator_list)
             if is_prop == want_prop:
                 out = self._method(fn, owner)
+        elif not want_prop and kind in self.classes:
+            # a method given as a class-level callable (`__add__ = _binary(operator.add)`): evaluated once, called with
+            # the receiver first, the way Python binds a plain function found on the class
+            try:
+                v = self.class_attr(kind, mname)
+            except Exception:  # noqa: BLE001
+                v = self._NOATTR
+            if v is not self._NOATTR and callable(v) and not isinstance(v, Obj):
+                out = (lambda f: lambda recv, *a, **kw: f(recv, *a, **kw))(v)
         self._cache[key] = out
         return out
 
@@ -283,12 +344,18 @@ class ClassModel:
             c = self.classes[cname]
             obj = Obj(tuple(self._mro(cname)))
             if any(ast.unparse(b) == "NamedTuple" for b in c.bases):
-                fields = [n.target.id for n in c.body if isinstance(n, ast.AnnAssign) and isinstance(n.target, ast.Name)]
-                if len(args) + len(kwargs) != len(fields):
+                decl = [(n.target.id, n.value) for n in c.body if isinstance(n, ast.AnnAssign) and isinstance(n.target, ast.Name)]
+                fields = [f for f, _ in decl]
+                if len(args) > len(fields) or any(k not in fields for k in kwargs):
                     raise AnalysisError(f"{self.where}: {cname}() takes {fields}")
                 for f, v in zip(fields, args):
                     obj.__dict__[f] = v
                 obj.__dict__.update(kwargs)
+                for f, default in decl:
+                    if f not in obj.__dict__:
+                        if default is None:
+                            raise AnalysisError(f"{self.where}: {cname}() takes {fields}")
+                        obj.__dict__[f] = self._ev().ev(default)
                 obj.__dict__["_fields"] = tuple(fields)
                 return obj
             r = self._resolve_owner(cname, "__init__")
@@ -367,6 +434,17 @@ def count_checkpoints(cm: ClassModel, st: Obj) -> None:
 
     for name, delta in (("checkpoint", 1), ("ok", -1), ("restore", -1)):
         st.__dict__[name] = wrap(name, delta)
+
+
+def model_attr(cm: ClassModel, obj: Obj, name: str) -> Any:
+    """obj.name as the evaluated program sees it: an instance attribute, or a property of its class."""
+    if name in obj.__dict__:
+        return obj.__dict__[name]
+    for k in obj.kinds:
+        p = cm.get((k, "@" + name))
+        if p is not None:
+            return p(obj)
+    raise AnalysisError(f"{cm.where}: anchor vanished: {obj.kinds[0]}.{name} is neither an attribute nor a property")
 
 
 def counter_value(st: Obj, counter: Any) -> Any:
